@@ -15,6 +15,8 @@ for path in sys.argv[1:]:
         if not m:
             continue
         name, prop, tests, rc, first = m.groups()
+        if not name.startswith(('seeded:', 'silent:')) and not os.path.exists('/verif/selftest/planted/%s.diff' % name):
+            continue  # renamed or moved since that log was written
         key = (name, prop)
         if key not in rows:
             order.append(key)
